@@ -363,7 +363,11 @@ def register3(w):
                modifies=[], returns="bool", ensures=["result == False"], **common)
     w.contract(H + "dir.py::DirHandler.canhandlerequest", selfclass=["DirHandler", "UMNDirHandler"],
                requires=INV, modifies=[], returns="opt[bool]",
-               ensures=["implies(result, self.statresult is not None and stat.S_ISDIR(self.statresult[0]))"], **common)
+               ensures=["implies(result, self.statresult is not None and stat.S_ISDIR(self.statresult[0]))",
+                        "implies(result, not self.selector.endswith('/.'))"],
+               note="C10/C03: a directory is listed (and its cache file written) only under a spelling whose child selectors pass the filter: "
+                    "'<dir>/.' shares <dir>'s cache file but every child selector built from it contains './'",
+               globals=GROOT, props=["C01", "C10", "C03"])
     w.contract(H + "file.py::FileHandler.canhandlerequest", selfclass=["FileHandler", "HTMLFileTitleHandler", "TALFileHandler", "CompressedFileHandler"],
                requires=INV, modifies=[], returns="opt[bool]",
                ensures=["implies(result, self.statresult is not None and stat.S_ISREG(self.statresult[0]))"], **common)
@@ -520,6 +524,27 @@ def register_ast(w):
                             if is_sink and q not in covered:
                                 bad.append("%s calls %s at line %d and has no C01 contract" % (q, ast.unparse(f), n.lineno))
         return (not bad, sorted(set(bad)) or "every function containing a file-system/process sink is under a C01 contract")
+
+    def protocols_no_fs(world):
+        """Protocol classes and the connection handler never touch the file system themselves: every access goes
+        through the handler that getHandler selected (and that therefore passed the filter).  A stat/open/listdir in
+        protocols/*.py or server.py would let an unfiltered selector influence the response."""
+        bad = []
+        names = {"stat", "lstat", "open", "listdir", "scandir", "isfile", "isdir", "exists", "unlink", "copyto", "getfspath", "walk", "glob", "readlink", "access"}
+        for q, fi in world.repo.funcs.items():
+            if not (q.startswith("pygopherd/protocols/") or q.startswith("pygopherd/server.py")) or "Multiplexer" in q:
+                continue
+            for n in ast.walk(fi.node):
+                if isinstance(n, ast.Call):
+                    f = n.func
+                    nm = f.attr if isinstance(f, ast.Attribute) else (f.id if isinstance(f, ast.Name) else None)
+                    if nm in names or nm in ("VFS_Real", "VFSZip"):
+                        if isinstance(f, ast.Attribute) and ast.unparse(f.value).endswith("handler"):
+                            continue  # a method of the selected handler object (handler.isdir(), handler.write(...))
+                        bad.append("%s calls %s at line %d" % (q, nm, n.lineno))
+        return (not bad, bad or "no file-system entry point is called from protocols/*.py or server.py")
+
+    w.astcheck("C01.ast.protocols-no-fs", ["C01"], protocols_no_fs)
 
     w.astcheck("C01.ast.sinks-under-contract", ["C01"], sinks_under_contract)
 
